@@ -639,13 +639,24 @@ pub fn c09(args: &Args) -> i32 {
         }
         i = hi;
     }
+    // session resumption with a certificate that has expired meanwhile (minted at run time)
+    for tls13 in [false, true] {
+        for server_role in [true, false] {
+            let mut e = Evidence::new();
+            let problems = rt.block_on(async { if server_role { crate::c09resume::server_role(tls13, &mut e).await } else { crate::c09resume::client_role(tls13, &mut e).await } });
+            ev.merge(e);
+            for (sig, what) in problems {
+                ev.violation(sig, what, json!({"leg": "resumption", "tls13": tls13, "rodbus_is_server": server_role}));
+            }
+        }
+    }
     ev.sample(json!({"cell_example": "rodbus_server|min1.3|authority|authz|peer_offers_tls12_only|cert_Valid -> refuse", "peer": "CPython ssl (OpenSSL), pinned min/max version; sends a Modbus write right after its own Finished"}));
     let meta = Meta {
         property_id: "C09",
         level: "fault_enumeration",
         rule: "one evaluation = one cell of the grid {min 1.2, 1.3} x {authority, self-signed} x {authz, no authz (server role)} x {rodbus as server, rodbus as client} x peer offers {TLS1.2 only, TLS1.3 only, both} x peer certificate {valid, wrong authority / other certificate, wrong name (client role), expired, not yet valid, role-less, other role, two role extensions (different / equal); client role with an IP-literal expected name: certificate with that IP as subjectAltName / DNS name only / another IP}: a real handshake between the rodbus endpoint and an independent TLS stack (CPython ssl/OpenSSL) which then sends a Modbus write; plus plaintext Modbus sent to the TLS port. Oracle: truth table from the cell coordinates (admit iff certificate valid for the mode and a version >= minimum is offered; negotiated version = highest common), handler/authorization logs must be empty in refused cells, role delivered = role extension of the certificate. Every cell is run: the grid is enumerated completely. distinct = cells".into(),
         assumptions: vec![
-            "validity periods are checked against today's clock only (fixtures: 2010-2011 expired, 2100-2110 not yet valid)".into(),
+            "validity periods of the fixtures are checked against today's clock (2010-2011 expired, 2100-2110 not yet valid); the resumption leg mints a certificate that expires during the run".into(),
             "certificates with two role extensions are minted by DER surgery (fixtures/pki/mint_extra.py); a role extension that is not a UTF8String is not tested".into(),
         ],
         exhaustive: Some(true),
@@ -654,6 +665,7 @@ pub fn c09(args: &Args) -> i32 {
             ("admitted_as_expected".into(), 40),
             ("refused_as_expected".into(), 100),
             ("roles_checked".into(), 8),
+            ("resumption_scenarios".into(), 0),
         ],
         min_classes: 244,
     };
